@@ -5,6 +5,7 @@ mod conc;
 mod record;
 mod refeval;
 mod signet;
+mod threshold;
 
 use blsful::{Bls12381G1Impl, Bls12381G2Impl};
 use conc::*;
@@ -25,6 +26,8 @@ fn run_vector(v: &Value, group: &str, conc: &Conc, tables: &Tables) -> signet::O
     let f = || match (spec, group) {
         ("SigNet", "G1") => signet::run::<Bls12381G1Impl, RefG1>(v, conc, tables),
         ("SigNet", "G2") => signet::run::<Bls12381G2Impl, RefG2>(v, conc, tables),
+        ("Threshold", "G1") => threshold::run::<Bls12381G1Impl, RefG1>(v, conc, tables),
+        ("Threshold", "G2") => threshold::run::<Bls12381G2Impl, RefG2>(v, conc, tables),
         (s, g) => signet::Outcome::fail(json!({}), format!("no interpreter for spec {s} group {g}")),
     };
     match catch_unwind(AssertUnwindSafe(f)) {
